@@ -323,6 +323,8 @@ impl Backend {
                 let additional_text_edits = insertion_info.as_ref().map(|info| {
                     let text = if info.needs_comma {
                         format!(", {}", ef.fixture.name)
+                    } else if info.needs_trailing_comma {
+                        format!("{}, ", ef.fixture.name)
                     } else {
                         ef.fixture.name.clone()
                     };
